@@ -6,7 +6,7 @@ from typing import Dict, List, Optional
 
 from sa.model import AnalysisError, FuncInfo, calls_in, kwarg, arg_or_kw
 from sa.paths import function_paths, end_kind, consistent
-from sa.util import U, Env, TupleItem, call_is
+from sa.util import U, Env, TupleItem, call_is, const_value
 
 NUMPY_SIGS = {
     "allclose": ["a", "b", "rtol", "atol", "equal_nan"], "isclose": ["a", "b", "rtol", "atol", "equal_nan"],
@@ -258,3 +258,74 @@ def axis_resolved(ctx, rule, fi, param="axis"):
         ctx.ok(rule, key, f"`{param}` is only passed on", fi.where)
     else:
         ctx.check(not bad, rule, key, f"{uses} use(s) of `{param}`, each after `{param} = self._get_axis({param})`", " ; ".join(sorted(set(bad))[:2]), fi.where)
+
+
+def flatten_order(ctx, rule, m, key):
+    """Every flatten / ravel / reshape of the generic extractors and of the 1-D kernel is in logical (C) order.
+
+    Values and weights are flattened by different functions; pairing them by position is only right when both use the
+    same, memory-layout independent, order."""
+    con = m.module("_construction")
+    bad_order = []
+    n_flat = 0
+    for fi in [con.functions[x] for x in ("extract_1d_array", "extract_weights", "extract_nd_array", "extract_and_concat_arrays")] + \
+            [m.func("_construction", "calculate_1d_frequencies")]:
+        ctx.saw(fi)
+        for c in calls_in(fi.node):
+            if isinstance(c.func, ast.Attribute) and c.func.attr in ("flatten", "ravel", "reshape"):
+                n_flat += 1
+                o = kwarg(c, "order") or (c.args[0] if c.func.attr in ("flatten", "ravel") and c.args else None)
+                if o is not None and const_value(o) != "C":
+                    bad_order.append(f"{fi.qualname}: `{U(c)}`")
+    ctx.check(not bad_order and n_flat >= 3, rule, key, f"{n_flat} flatten / ravel calls, all in logical (C) order",
+              "multi-dimensional inputs are flattened in memory order: " + "; ".join(bad_order) + " - values and weights of transposed / "
+              "Fortran-ordered arrays are then paired differently than for the equivalent array", con.relpath)
+
+
+EXTRACTORS = {"extract_1d_array": 1, "extract_nd_array": 2, "extract_and_concat_arrays": 1}   # name -> index of the mask result
+WEIGHT_CONSUMERS = ("h", "h1", "h2", "h3", "calculate_1d_frequencies", "calculate_nd_frequencies", "from_calculate_frequencies",
+                    "polar", "radial", "azimuthal", "cylindrical", "cylindrical_surface", "spherical", "spherical_surface")
+
+
+def discarded_mask(ctx, rule, m, only=None, floor=1):
+    """A call that throws the extractor's NaN mask away must not drop anything (dropna=False) when the same function hands
+    weights on (explicitly or through **kwargs): whoever drops entries later can then still drop their weights."""
+    n = 0
+    for fi in m.all_funcs():
+        if only is not None and fi.qualname not in only:
+            continue
+        parents = {}
+        for node in ast.walk(fi.node):
+            for ch in ast.iter_child_nodes(node):
+                parents[ch] = node
+        for c in calls_in(fi.node):
+            if not (isinstance(c.func, ast.Name) and c.func.id in EXTRACTORS):
+                continue
+            par = parents.get(c)
+            mask_idx = EXTRACTORS[c.func.id]
+            discarded = False
+            if isinstance(par, ast.Subscript) and par.value is c:
+                discarded = True
+            if isinstance(par, ast.Call) and isinstance(parents.get(par), ast.Subscript) and U(par.func) == "cast":
+                discarded = True
+            if isinstance(par, ast.Assign) and par.value is c and isinstance(par.targets[0], ast.Tuple):
+                elts = par.targets[0].elts
+                if mask_idx < len(elts) and isinstance(elts[mask_idx], ast.Name) and elts[mask_idx].id == "_":
+                    discarded = True
+            if not discarded:
+                continue
+            n += 1
+            dn = kwarg(c, "dropna")
+            drops = dn is None or not (isinstance(dn, ast.Constant) and dn.value is False)
+            hands_on = []
+            for c2 in calls_in(fi.node):
+                fn = U(c2.func).split(".")[-1]
+                if fn in WEIGHT_CONSUMERS and (any(k.arg is None for k in c2.keywords) or kwarg(c2, "weights") is not None):
+                    hands_on.append(U(c2.func))
+            key = f"{fi.qualname}:{c.func.id}:mask-discarded"
+            ctx.check(not (drops and hands_on), rule, key,
+                      "nothing is dropped here (dropna=False)" if not drops else "the function hands no weights on",
+                      f"`{U(c)[:80]}` may drop NaN entries but its mask is thrown away while the function passes weights on to "
+                      f"{sorted(set(hands_on))}: the weights can no longer be filtered with the values", fi.where)
+    if n < floor:
+        ctx.bad(rule, "mask-discarded:sites", f"expected at least {floor} extractor call(s) with a discarded mask, found {n} (anchor moved?)", "")
